@@ -217,6 +217,9 @@ fn step(cx: &mut Ctx, data: &mut Vec<u8>, op: &Op) {
             ));
             cx.probe("io.stream_exec");
             cx.probe_n("sim.bytes_delivered_by_readers", tr.delivered as u64);
+            if matches!(tr.terminal, Some(Err(_))) && tr.inflight_at_fault > (1 << 20) {
+                cx.probe("fault.after_1MiB");
+            }
             if tr.reentered > 0 {
                 cx.probe("fault.fired.reentrant_reader");
             }
@@ -522,8 +525,63 @@ fn all_specs() -> Vec<ErrSpec> {
     v
 }
 
+/// A large stream (1..3.5 MiB): a reduced fault plan late in the stream, for
+/// defects that only appear after a lot of data has been consumed.  One such
+/// execution costs 10-30 ms, so these workloads are rare (1 in 250).
+fn generate_large(rng: &mut Rng) -> Vec<Op> {
+    let mut ops = Vec::new();
+    let n = rng.range(1 << 20, (7 << 19) + 12345) as usize;
+    // cheap, non-degenerate content: a random 64 KiB block repeated with a twist
+    let block = rng.bytes(65536);
+    let mut data = Vec::with_capacity(n);
+    let mut k = 0u8;
+    while data.len() < n {
+        let take = (n - data.len()).min(block.len());
+        data.extend(block[..take].iter().map(|&b| b ^ k));
+        k = k.wrapping_add(29);
+    }
+    let read = *rng.pick(&[32768u32, 32768, 65536, 8192, 40000]);
+    let eff = read.min(32768) as usize;
+    let r = (n + eff - 1) / eff;
+    let base: Vec<REv> = (0..r).map(|_| REv::Deliver(read)).collect();
+    let scribble = false;
+    ops.push(Op::Data(data));
+    ops.push(Op::Stream { script: base.clone(), scribble, sticky: true, tail: 0 });
+    let with_prefix = |i: usize, tail: Vec<REv>| -> Vec<REv> {
+        let mut s = base[..i.min(base.len())].to_vec();
+        s.extend(tail);
+        s
+    };
+    // fault sites: early, around and beyond 1 MiB, near the end, the EOF read
+    let mib = (1usize << 20) / eff;
+    let mut sites = vec![1usize, mib.saturating_sub(1), mib + 1, mib + 2 + rng.usize_below((r - mib).max(1)), r - 1, r];
+    sites.retain(|&i| i <= r);
+    sites.dedup();
+    for &i in &sites {
+        for k in SPECIAL_KINDS {
+            ops.push(Op::Stream { script: with_prefix(i, vec![REv::Fail(ErrSpec::Simple(k.to_string()))]), scribble, sticky: false, tail: 0 });
+        }
+        ops.push(Op::Stream { script: with_prefix(i, vec![REv::Fail(ErrSpec::Os(5))]), scribble, sticky: true, tail: 0 });
+        if rng.chance(1, 2) {
+            ops.push(Op::Stream { script: with_prefix(i, vec![REv::Eof]), scribble, sticky: true, tail: 0 });
+        }
+    }
+    // the same through hash_file: a late one-shot fault, and metadata off by one
+    let i = sites[sites.len() / 2];
+    ops.push(Op::File {
+        spec: FileSpec { open: Ok(()), meta: Ok(n as u64), script: with_prefix(i, vec![REv::Fail(ErrSpec::Simple("Interrupted".into()))]), scribble, sticky: false, tail: 0 },
+    });
+    for m in [n as u64 - 1, n as u64 + 1, (n as u64 / 32768) * 32768] {
+        ops.push(Op::File { spec: FileSpec { open: Ok(()), meta: Ok(m), script: Vec::new(), scribble, sticky: true, tail: 0 } });
+    }
+    ops
+}
+
 pub fn generate(seed: u64) -> Vec<Op> {
     let mut rng = Rng::new(seed);
+    if rng.chance(1, 250) {
+        return generate_large(&mut rng);
+    }
     let mut ops = Vec::new();
     let data = payload(&mut rng);
     let base = schedule(&mut rng, data.len());
